@@ -36,7 +36,7 @@ import argparse, glob, hashlib, json, os, re, sys
 HERE = os.path.dirname(os.path.abspath(__file__))
 ROOT = os.path.dirname(HERE)
 
-CORE = ["font_data.rs", "read.rs", "array.rs", "offset.rs", "offset_array.rs", "table_ref.rs"]
+CORE = ["font_data.rs", "read.rs", "array.rs", "offset.rs", "offset_array.rs", "table_ref.rs", "traversal.rs"]
 SKIP_FILES = {"read-fonts/src/tables/layout/spec_tests.rs"}
 HOOK_CFG = "googlefonts_fontations_verif"
 
